@@ -113,7 +113,7 @@ def shard(i, n, args):
 
 def main(mode, tier):
     rep = common.Report(mode, tier)
-    nsh = 4 if tier == "quick" else common.NCPU
+    nsh = min(8, common.NCPU) if tier == "quick" else common.NCPU
     if ctx.focus() is not None:
         nsh = 2
     results, inconc = common.run_shards("rt", nsh, args=[mode, tier])
